@@ -92,6 +92,21 @@ func (r *rdr) parsedTables() [][]gridCell {
 	return out
 }
 
+// declaredCols is len(ColWidths) of every parsed table (the column declarations as read).
+func (r *rdr) declaredCols() []int {
+	var out []int
+	if r.docx != nil {
+		for _, t := range r.docx.Tables() {
+			out = append(out, len(t.ColWidths))
+		}
+		return out
+	}
+	for _, t := range r.odt.Tables() {
+		out = append(out, len(t.ColWidths))
+	}
+	return out
+}
+
 func (r *rdr) modelTables() []*model.Table {
 	if r.docx != nil {
 		return r.docx.ModelTables()
@@ -194,7 +209,7 @@ func (r *rdr) render(view string) (string, error) {
 }
 
 // spanFailure compares the reported cells of the k-th table with the authored grid.
-func spanFailure(x *expect, tables [][]gridCell) *failure {
+func spanFailure(x *expect, tables [][]gridCell, decl []int) *failure {
 	k := 0
 	for bi, b := range x.blocks {
 		if b.kind != kTable {
@@ -203,6 +218,27 @@ func spanFailure(x *expect, tables [][]gridCell) *failure {
 		bf := featOr(b.feat, "plain")
 		if k >= len(tables) {
 			return failf("tables-missing:"+bf, "block %d: table %d is not reported (%d tables)", bi+1, k+1, len(tables))
+		}
+		// exactly the authored rows and columns: no surplus (empty) rows / columns, none missing
+		rows, width := 0, map[int]int{}
+		for _, g := range tables[k] {
+			if g.r+1 > rows {
+				rows = g.r + 1
+			}
+			if g.c+g.cs > width[g.r] {
+				width[g.r] = g.c + g.cs
+			}
+		}
+		if rows != b.tbl.rows {
+			return failf("tables-dims:"+bf, "block %d: %d rows in the source, %d reported:\n%s", bi+1, b.tbl.rows, rows, dumpGrid(tables[k:k+1]))
+		}
+		for r := 0; r < rows; r++ {
+			if width[r] != b.tbl.cols {
+				return failf("tables-dims:"+bf, "block %d: row %d covers %d columns, the authored grid has %d:\n%s", bi+1, r+1, width[r], b.tbl.cols, dumpGrid(tables[k:k+1]))
+			}
+		}
+		if decl != nil && decl[k] != b.tbl.cols {
+			return failf("tables-dims:"+bf, "block %d: %d columns declared according to Tables().ColWidths, the authored grid has %d", bi+1, decl[k], b.tbl.cols)
 		}
 		for _, c := range b.tbl.cells {
 			var got *gridCell
@@ -234,7 +270,8 @@ func (c *checker) idempotence() {
 	type fmtSpec struct {
 		name    string
 		letters []string
-		build   func(seq []int) ([]zipw.Member, *expect)
+		layouts []string
+		build   func(seq []int, layout string) ([]zipw.Member, *expect)
 	}
 	da, oa := docxAlphabet(), odtAlphabet()
 	index := func(names []string, all []string) []int {
@@ -262,7 +299,7 @@ func (c *checker) idempotence() {
 	}
 	di, oi := index(idemDocx, dn), index(idemOdt, on)
 	specs := []fmtSpec{
-		{"docx", idemDocx, func(seq []int) ([]zipw.Member, *expect) {
+		{"docx", idemDocx, []string{"-"}, func(seq []int, layout string) ([]zipw.Member, *expect) {
 			full := make([]int, len(seq))
 			for i, s := range seq {
 				full[i] = di[s]
@@ -270,12 +307,12 @@ func (c *checker) idempotence() {
 			cs := buildDocx(da, full, docxOpts[0], "id")
 			return docxw.Members(cs.doc, cs.opts), &cs.x
 		}},
-		{"odt", idemOdt, func(seq []int) ([]zipw.Member, *expect) {
+		{"odt", idemOdt, odtColLayouts, func(seq []int, layout string) ([]zipw.Member, *expect) {
 			full := make([]int, len(seq))
 			for i, s := range seq {
 				full[i] = oi[s]
 			}
-			cs := buildOdt(oa, full, odtOpts[0], "id")
+			cs := buildOdt(oa, full, odtOpts[0], "id", layout)
 			return odtw.Members(cs.doc, cs.opts), &cs.x
 		}},
 	}
@@ -287,82 +324,56 @@ func (c *checker) idempotence() {
 	for _, sp := range specs {
 		for l := 1; l <= max; l++ {
 			product(len(sp.letters), l, func(seq []int) {
-				sn := make([]string, len(seq))
-				for i, s := range seq {
-					sn[i] = sp.letters[s]
-				}
-				stem := fmt.Sprintf("space=onereader fmt=%s n=%d seq=%s", sp.name, len(seq), strings.Join(sn, ","))
-				// lazily built per document
-				var path string
-				var x *expect
-				var files map[string][]byte
-				fresh := map[string]string{}
-				prepare := func() {
-					if path != "" {
-						return
+				for _, layout := range sp.layouts {
+					sn := make([]string, len(seq))
+					hasTable := false
+					for i, s := range seq {
+						sn[i] = sp.letters[s]
+						hasTable = hasTable || strings.HasPrefix(sn[i], "t")
 					}
-					ms, xx := sp.build(seq)
-					x = xx
-					for i := range ms {
-						ms[i].Store = true
-					}
-					data := zipw.Zip(ms)
-					path = filepath.Join(c.dir, "one."+sp.name)
-					if err := os.WriteFile(path, data, 0o644); err != nil {
-						panic(err)
-					}
-					files = map[string][]byte{"input." + sp.name: data}
-				}
-				freshView := func(v string) (string, error) {
-					if s, ok := fresh[v]; ok {
-						return s, nil
-					}
-					r, err := openRdr(sp.name, path)
-					if err != nil {
-						return "", err
-					}
-					defer r.close()
-					s, err := r.render(v)
-					if err == nil {
-						fresh[v] = s
-					}
-					return s, err
-				}
-				// (1) merge structure reported by a fresh reader
-				for _, v := range []string{"tables", "mtables"} {
-					desc := stem + " check=spans view=" + v
-					if !e.Own(desc) {
+					if layout != sp.layouts[0] && !hasTable {
 						continue
 					}
-					prepare()
-					e.Begin(desc)
-					var f *failure
-					sig, det := harness.Guard(func() {
-						r, err := openRdr(sp.name, path)
-						if err != nil {
-							f = failf("error:open", "%v", err)
+					stem := fmt.Sprintf("space=onereader fmt=%s cols=%s n=%d seq=%s", sp.name, layout, len(seq), strings.Join(sn, ","))
+					// lazily built per document
+					var path string
+					var x *expect
+					var files map[string][]byte
+					fresh := map[string]string{}
+					prepare := func() {
+						if path != "" {
 							return
 						}
-						defer r.close()
-						if v == "tables" {
-							f = spanFailure(x, r.parsedTables())
-						} else {
-							f = spanFailure(x, modelGrid(r.modelTables()))
+						ms, xx := sp.build(seq, layout)
+						x = xx
+						for i := range ms {
+							ms[i].Store = true
 						}
-					})
-					switch {
-					case sig != "":
-						e.Fail(desc, sig, det, files)
-					case f != nil:
-						e.Fail(desc, f.sig, f.detail, files)
-					default:
-						e.Pass(desc, true, "onereader:spans-"+v)
+						data := zipw.Zip(ms)
+						path = filepath.Join(c.dir, "one."+sp.name)
+						if err := os.WriteFile(path, data, 0o644); err != nil {
+							panic(err)
+						}
+						files = map[string][]byte{"input." + sp.name: data}
 					}
-				}
-				// (2) every ordered pair of views on one reader
-				for _, v1 := range readerViews {
-					for _, v2 := range readerViews {
-						desc := stem + " check=pair first=" + v1 + " second=" + v2
+					freshView := func(v string) (string, error) {
+						if s, ok := fresh[v]; ok {
+							return s, nil
+						}
+						r, err := openRdr(sp.name, path)
+						if err != nil {
+							return "", err
+						}
+						defer r.close()
+						s, err := r.render(v)
+						if err == nil {
+							fresh[v] = s
+						}
+						return s, err
+					}
+					// (1) merge structure reported by a fresh reader
+					for _, v := range []string{"tables", "mtables"} {
+						desc := stem + " check=spans view=" + v
 						if !e.Own(desc) {
 							continue
 						}
@@ -370,28 +381,16 @@ func (c *checker) idempotence() {
 						e.Begin(desc)
 						var f *failure
 						sig, det := harness.Guard(func() {
-							want, err := freshView(v2)
-							if err != nil {
-								f = failf("error:"+v2, "%v", err)
-								return
-							}
 							r, err := openRdr(sp.name, path)
 							if err != nil {
 								f = failf("error:open", "%v", err)
 								return
 							}
 							defer r.close()
-							if _, err := r.render(v1); err != nil {
-								f = failf("error:"+v1, "%v", err)
-								return
-							}
-							got, err := r.render(v2)
-							if err != nil {
-								f = failf("error:"+v2, "%v", err)
-								return
-							}
-							if got != want {
-								f = failf("stateful:"+v2+"-after-"+v1, "%s on a reader that already served %s differs from %s on a fresh reader\n--- fresh:\n%s\n--- after %s:\n%s", v2, v1, v2, want, v1, got)
+							if v == "tables" {
+								f = spanFailure(x, r.parsedTables(), r.declaredCols())
+							} else {
+								f = spanFailure(x, modelGrid(r.modelTables()), nil)
 							}
 						})
 						switch {
@@ -400,11 +399,56 @@ func (c *checker) idempotence() {
 						case f != nil:
 							e.Fail(desc, f.sig, f.detail, files)
 						default:
-							e.Pass(desc, true, "onereader:pair-stable")
+							e.Pass(desc, true, "onereader:spans-"+v)
 						}
 					}
+					// (2) every ordered pair of views on one reader
+					for _, v1 := range readerViews {
+						for _, v2 := range readerViews {
+							desc := stem + " check=pair first=" + v1 + " second=" + v2
+							if !e.Own(desc) {
+								continue
+							}
+							prepare()
+							e.Begin(desc)
+							var f *failure
+							sig, det := harness.Guard(func() {
+								want, err := freshView(v2)
+								if err != nil {
+									f = failf("error:"+v2, "%v", err)
+									return
+								}
+								r, err := openRdr(sp.name, path)
+								if err != nil {
+									f = failf("error:open", "%v", err)
+									return
+								}
+								defer r.close()
+								if _, err := r.render(v1); err != nil {
+									f = failf("error:"+v1, "%v", err)
+									return
+								}
+								got, err := r.render(v2)
+								if err != nil {
+									f = failf("error:"+v2, "%v", err)
+									return
+								}
+								if got != want {
+									f = failf("stateful:"+v2+"-after-"+v1, "%s on a reader that already served %s differs from %s on a fresh reader\n--- fresh:\n%s\n--- after %s:\n%s", v2, v1, v2, want, v1, got)
+								}
+							})
+							switch {
+							case sig != "":
+								e.Fail(desc, sig, det, files)
+							case f != nil:
+								e.Fail(desc, f.sig, f.detail, files)
+							default:
+								e.Pass(desc, true, "onereader:pair-stable")
+							}
+						}
+					}
+					e.End()
 				}
-				e.End()
 			})
 		}
 	}
